@@ -5,7 +5,7 @@ CXX_SOURCES = ['plugins/artnet/ArtNetNode.cpp']
 HARNESS = 'h_artnet.cpp'
 COQ_FILES = ['GenArtNet.v', 'ArtNet.v']
 EXTRACT = ['artnet_handle', 'AN_PACKET_SIZE', 'mk_an_state']
-RULE = ('Art-Net: valid ArtPoll/ArtPollReply/ArtDmx/ArtTodRequest/ArtTodData/ArtTodControl/ArtRdm/ArtIpProg packets '
+RULE = ('Art-Net merge: two output ports on the same / different port addresses x HTP/LTP x ArtDmx from 1-4 source IPs (second source enters merge mode and triggers ArtPollReply-on-change in mid-dispatch, third finds no room) x callbacks that transmit ArtPoll/ArtDmx/ArtTodData from inside the dispatch || Art-Net: valid ArtPoll/ArtPollReply/ArtDmx/ArtTodRequest/ArtTodData/ArtTodControl/ArtRdm/ArtIpProg packets '
         'built from the struct layout (plus the ignored opcodes) x mutation of every version/net/address/command/'
         'length/count field to the boundary values of every comparison x every truncation length around the 10-byte '
         'header, each sub-header and the end of the data x maximum-size/oversize datagrams (1227/1228/1229 bytes) x '
@@ -213,11 +213,11 @@ def config(rng):
     # output port 1: disabled, on the same universe as port 0, or on another one
     ou2 = rng.choice([16, 16, ou, ou, (ou + 1) & 15, 1])
     b2 = rng.choice(['none', 'none', hx([rng.randrange(1, 256) for _ in range(rng.choice([3, 512]))])])
-    return (net, sub, ou, iu, b, rng.choice([0, 0, 1]), ou2, b2)
+    return (net, sub, ou, iu, b, rng.choice([0, 0, 1]), ou2, b2, rng.choice([0, 0, 1]))
 
 
 def cfg_s(c):
-    return '%d,%d,%d,%d,%s,%d,%d,%s' % c
+    return '%d,%d,%d,%d,%s,%d,%d,%s,%d' % c
 
 
 def valid_any(rng, c):
@@ -380,8 +380,38 @@ def mutants(rng, quick, c):
         yield 'max-todreq', (todreq(net=net, count=255, addrs=[1] * 1500))[:ln]
 
 
+def merge_cases(rng, quick):
+    """several ports on one port address + several source IPs: a second source makes a port enter merge mode, which
+    sends an ArtPollReply (reply-on-change) in the middle of HandleDataPacket; a third source finds no room; with the
+    config's last field set the DMX/RDM callbacks transmit packets of their own while the datagram is dispatched"""
+    for _ in range(40 if quick else 1500):
+        net, sub = rng.choice([4, 0, 127]), rng.choice([2, 0, 15])
+        ou = rng.choice([3, 0, 5])
+        ou2 = rng.choice([ou, ou, ou, (ou + 1) & 15, 16])
+        oa, ob = (sub << 4) | ou, (sub << 4) | (ou2 & 15)
+        def init():
+            return rng.choice(['none', hx([rng.randrange(1, 256) for _ in range(rng.choice([3, 512]))])])
+        c = (net, sub, ou, rng.choice([5, 16]), init(), rng.choice([0, 1]), ou2, init(), rng.choice([0, 1, 1]))
+        dgs = []
+        if rng.random() < 0.7:
+            dgs.append(hx(poll(ttm=rng.choice([2, 2, 0, 3]))))
+        for _k in range(rng.choice([2, 3, 4, 6])):
+            src = rng.choice([0, 1, 1, 2, 3])
+            uni = rng.choice([oa, oa, oa, ob])
+            n = rng.choice([2, 3, 24, 511, 512])
+            d = dmx(uni=uni, net=net, data=[rng.randrange(256) for _ in range(n)])
+            if rng.random() < 0.15:
+                d = d[:rng.choice([18, 19, 20, 21, 30])]
+            dgs.append(('s%d.' % src if src else '') + hx(d))
+            if rng.random() < 0.15:
+                dgs.append(hx(poll(ttm=rng.choice([0, 2]))))
+        yield 'artnet %s %s' % (cfg_s(c), ' '.join(dgs))
+
+
 def gen_cases(rng, tier):
     quick = tier == 'quick'
+    for c in merge_cases(rng, quick):
+        yield c
     # quick: many node configurations, each with a random third of the mutants
     for _ in range(14 if quick else 30):
         c = config(rng)
